@@ -34,11 +34,23 @@ def _subclass_kinds():
             is_instance_p(Level), is_instance_p(_Name), is_instance_p(frozenset), is_instance_p(bytes), is_instance_p(bool, str)]
 
 
+def _flagged_regexes():
+    import re
+    from predicate.regex_predicate import RegexPredicate
+    out = []
+    for pat, fl in (("straße|gasse|weg", re.IGNORECASE), ("İstanbul|ankara", re.IGNORECASE), ("^(yes|no)$", re.IGNORECASE), ("ab+c", re.IGNORECASE), ("a.c", re.DOTALL), ("^x$", re.MULTILINE)):
+        try:
+            out.append(RegexPredicate(pat, flags=fl))
+        except TypeError:
+            pass                      # a RegexPredicate without a flags parameter: nothing to generate for
+    return out
+
+
 def extra_kinds():
     """kinds outside the Coq model: judged by the search only (a kind the generators do not support may raise ValueError or give an
     empty stream; whatever IS yielded must satisfy the predicate)"""
     return _subclass_kinds() + [is_tuple_of_p(is_int_p, is_str_p), is_tuple_of_p(), is_dict_of_p((is_str_p, is_int_p)), is_dict_of_p(("a", is_int_p)),
-            is_list_of_p(is_int_p), is_list_of_p(ge_p(3) | is_str_p), regex_p("^foo[0-9]+"), regex_p("a|b"),
+            is_list_of_p(is_int_p), is_list_of_p(ge_p(3) | is_str_p), regex_p("^foo[0-9]+"), regex_p("a|b"), *_flagged_regexes(),
             is_subset_p({1, 2, 3}), is_real_subset_p({1, 2}), is_subset_p(set())]
 
 
